@@ -9,6 +9,8 @@ use swift_mt_message::SwiftField;
 use swift_mt_message::fields::*;
 
 pub struct Probe {
+    pub reparse_same: Option<bool>,
+    pub json: Option<serde_json::Value>,
     pub accepted: bool,
     pub panicked: bool,
     pub date: Option<String>,   // first YYYY-MM-DD in the Debug rendering of the parsed value
@@ -35,19 +37,22 @@ pub fn probe<F: SwiftField>(content: &str) -> Probe {
             Ok(f) => {
                 let dbg = format!("{f:?}");
                 let ser = f.to_swift_string();
+                let body = ser.splitn(3, ':').nth(2).unwrap_or("").to_string();
+                let re = F::parse(&body).ok().map(|g| format!("{g:?}") == dbg && g.to_swift_string() == ser);
+                let jv = serde_json::to_value(&f).ok();
                 let (same, jd) = match serde_json::to_value(&f).ok().and_then(|v| serde_json::from_value::<F>(v).ok()) {
                     Some(g) => { let d2 = format!("{g:?}"); (Some(d2 == dbg), first_date(&d2)) }
                     None => (Some(false), None),
                 };
-                Some((first_date(&dbg), ser, same, jd))
+                Some((first_date(&dbg), ser, same, jd, re, jv))
             }
             Err(_) => None,
         }
     });
     match r {
-        Ok(Some((date, ser, same, jd))) => Probe { accepted: true, panicked: false, date, ser: Some(ser), json_rt_same: same, json_date: jd },
-        Ok(None) => Probe { accepted: false, panicked: false, date: None, ser: None, json_rt_same: None, json_date: None },
-        Err(_) => Probe { accepted: false, panicked: true, date: None, ser: None, json_rt_same: None, json_date: None },
+        Ok(Some((date, ser, same, jd, re, jv))) => Probe { accepted: true, panicked: false, date, ser: Some(ser), json_rt_same: same, json_date: jd, reparse_same: Some(re.unwrap_or(false)), json: jv },
+        Ok(None) => Probe { accepted: false, panicked: false, date: None, ser: None, json_rt_same: None, json_date: None, reparse_same: None, json: None },
+        Err(_) => Probe { accepted: false, panicked: true, date: None, ser: None, json_rt_same: None, json_date: None, reparse_same: None, json: None },
     }
 }
 
@@ -58,6 +63,16 @@ pub const DATE_FIELDS: &[(&str, &str, &str)] = &[
     ("64", "C", "USD1,00"), ("65", "C", "USD1,00"), ("61", "", "C1,00NTRFREF"), ("13D", "", "1200+0100"),
     ("11R", "103", ""), ("11S", "103", ""), ("11", "103", ""),
 ];
+
+pub fn probe_generic(name: &str, content: &str) -> Probe {
+    match name {
+        "19" => probe::<Field19>(content), "32B" => probe::<Field32B>(content), "33B" => probe::<Field33B>(content),
+        "34F" => probe::<Field34F>(content), "36" => probe::<Field36>(content), "37H" => probe::<Field37H>(content),
+        "71F" => probe::<Field71F>(content), "71G" => probe::<Field71G>(content), "90C" => probe::<Field90C>(content),
+        "90D" => probe::<Field90D>(content),
+        other => probe_field(other, content),
+    }
+}
 
 pub fn probe_field(name: &str, content: &str) -> Probe {
     match name {
